@@ -78,7 +78,7 @@ def _main(args):
     jobs = 4
     if "--jobs" in args:
         jobs = int(args[args.index("--jobs") + 1])
-    targets = [a for a in args if not a.startswith("--") and not a.isdigit()]
+    targets = [a for a in args if not a.startswith("--") and not a.isdigit() and not re.fullmatch(r"C\d\d(,C\d\d)*", a)]
     if not targets:
         targets = sorted(glob.glob(os.path.join(VERIF, "seeded", "C*"))) + sorted(glob.glob(os.path.join(VERIF, "mutants", "*.patch")))
     work = []
@@ -99,6 +99,8 @@ def _main(args):
             props = AREA[prop[1:]]
         else:
             props = ALL if (all_checks or prop is None) else RELATED.get(prop, [prop])
+        if "--checks" in args:
+            props = args[args.index("--checks") + 1].split(",")
         if previous:
             recorded = json.load(open(os.path.join(VERIF, "seeded", "MATRIX.json"))).get(name, {})
             props = sorted(p for p, v in recorded.items() if isinstance(v, dict) and v.get("rc") == 1) or props
